@@ -257,7 +257,7 @@ def check(ctx):
 
     # ---------------- R2
     ctx.rule("C13.R2", "shortcut applicability: one key per alternative, no coerced alternative; Optional only for NoneType + one alternative", floor=3)
-    need = {"len(method_by_cls) == len(alt_factories)": "one dispatch key per alternative (alternatives without key, or two alternatives sharing a key, need the sequential union)"}
+    need = {"len(alt_factories) == len(method_by_cls)": "one dispatch key per alternative (alternatives without key, or two alternatives sharing a key, need the sequential union)"}
     for c, why in need.items():
         ctx.check(c in conj, "C13.R2", "UnionByTypeMethod:one-key-per-alternative", sel.test, f"selection of the by-type shortcut lacks `{c}`: {why}", union_factory, sel, detail=c)
     coer = any("CoercerMethod" in c and c.startswith("not any(") for c in conj)
